@@ -15,7 +15,7 @@ PROP_FILES = ["Properties/C12.v"]
 RULE = ("interactive sessions through a pty: plain scripts (grammar generated, with pushes of every encoding, conditionals, failing operations), legacy spends with "
         "scriptPubKey section (p2pk, p2pkh, multisig), P2SH spends (three sections), P2WPKH, P2WSH, wrapped segwit, taproot key path, tapscript with control "
         "paths of length 0, 1 and 2; command sequences of step / rewind (random walks, runs to the end and past it) with `print` after every command; compared: "
-        "every listing line, the marker position, the '#NNNN op' echo of step/rewind, against the model; marker vs the operation at the reported program counter. "
+        "(also P2SH-shaped outputs with the P2SH flag removed); every listing line, the script column of the two-column view after each step / rewind (= the listing from the marker on), the marker position, the '#NNNN op' echo of step/rewind, against the model; marker vs the operation at the reported program counter. "
         "non-trivial = the session made at least one step; distinct = distinct (session, command sequence)")
 
 def decode_at(scr, pc):
@@ -35,6 +35,20 @@ def decode_at(scr, pc):
     else: return (o, None)
     if i + n > len(scr): return None
     return (o, scr[i:i + n])
+
+def parse_dual(txt):
+    """script column of the two-column view printed by step / rewind (None when there is no such view in the output)"""
+    rows = txt.split("\n")
+    for i, l in enumerate(rows):
+        if re.fullmatch(r"-+\+-+\s*", l.strip("\r")):
+            left = []
+            for r in rows[i + 1:]:
+                r = r.strip("\r")
+                if "|" not in r: break
+                left.append(r.split("|", 1)[0].rstrip())
+            while left and left[-1] == "": left.pop()
+            return left
+    return None
 
 def parse_print(txt):
     lines, marker = [], None
@@ -71,6 +85,13 @@ def gen(chk):
             fl = STD & ~S.F_CONST
             sessions.append({"kind": k, "argv": ["--tx=" + c["spend"], "--txin=" + c["fund"], "--modify-flags=-CONST_SCRIPTCODE"],
                              "case": "spend id=%%s tx=%s txin=%s flags=%d ls=1 cmds=%%s" % (hx(c["spend"]), hx(c["fund"]), fl), "walk": walk()})
+    # pay-to-script-hash shaped outputs with the P2SH flag removed: the redeem script is neither executed nor listed
+    for k in ("p2sh", "p2sh-codesep", "p2sh", "p2pkh"):
+        for _ in range(2 if q else 20):
+            c = S.build(rng, k, ht=1, mutate=rng.choice([None, None, "wrongkey"]))
+            fl = STD & ~S.F_CONST & ~1
+            sessions.append({"kind": k + "/-P2SH", "argv": ["--tx=" + c["spend"], "--txin=" + c["fund"], "--modify-flags=-CONST_SCRIPTCODE,-P2SH"],
+                             "case": "spend id=%%s tx=%s txin=%s flags=%d ls=1 cmds=%%s" % (hx(c["spend"]), hx(c["fund"]), fl), "walk": ["s"] * 14})
     return sessions
 
 def main(tier):
@@ -106,6 +127,7 @@ def main(tier):
     st = chk.streams["sessions"]; st["diffs"] = len(real)
     dist = {}
     bad = 0
+    ndual = [0]
     for s, (banner, outs, status) in zip(sessions, ptyres):
         il, ml = byid.get(s["id"], ([], []))
         key = s["kind"] if s["kind"] != "script" else "script"
@@ -125,11 +147,21 @@ def main(tier):
         failed = False   # a step has failed: program counter and marker may disagree from here on (known finding F37)
         f37 = False
         last_mark = marks.get(0)
+        dual = None      # script column of the two-column view printed by the last step / rewind
         for (cmd, out) in outs:
             if out is None:
                 problems.append("the session died before '%s'" % cmd); break
             if cmd == "print":
                 lines, marker = parse_print(out)
+                # implementation alone: the two-column view shows the same pending operations as the listing from the marker on
+                # (long items are abbreviated there with "..."; taproot sessions print their commitment phase differently: not compared)
+                if dual is not None and not failed and not s["kind"].startswith("p2tr") and not any(l.startswith("?") for l in lines):
+                    ndual[0] += 1
+                    pend = [re.sub(r"^#\d{4} ", "", l) for l in (lines[marker:] if marker is not None else [])]
+                    same = len(pend) == len(dual) and all(a == b or (b.endswith("...") and a.startswith(b[:-3])) for a, b in zip(pend, dual))
+                    if not same:
+                        problems.append("after command %d the two-column view lists %r as pending but the listing from the marker on is %r" % (k, dual[:12], pend[:12]))
+                dual = None
                 if lines != listing:
                     problems.append("listing differs after command %d: binary %r model %r" % (k, lines[:40], listing[:40]))
                 want = marks.get(k, last_mark)
@@ -157,6 +189,7 @@ def main(tier):
                     del problems[before:]; f37 = True
             else:
                 k += 1
+                dual = parse_dual(out)
                 if k in marks: last_mark = marks[k]
                 # echo of the new position
                 stl = states.get(k)
@@ -176,4 +209,5 @@ def main(tier):
                                                               "replay_cmd": "btcdeb " + " ".join(s["argv"])[:3000]})
     chk.streams["pty-listing"] = {"cases": len(sessions), "diffs": bad, "known": 0}
     chk.extra["input_distribution"] = dist
+    chk.extra["two_column_views_compared"] = ndual[0]
     return chk.finish(RULE, trusted_extra=["tools/ptyrun.py: pseudo-terminal driver and the parser of `print` output"])
